@@ -24,6 +24,47 @@ func init() {
 		},
 	})
 	register(&Property{
+		ID: "C57",
+		Explanation: "Decides the structural form of 'unique match or error' in restic.Find (the plan listed this property as not applicable; re-examination showed that the clause is carried by guards, not by a frozen source fragment): (unique-prefix-match) the listing callback records an ID only on the edge where the prefix equals id.String()[:len(prefix)] and only while no match is recorded yet; with a match already recorded, a further ID with the prefix makes the callback return a non-nil error; Find returns a nil error only if the listing returned nil and a match is recorded, and then returns that recorded ID. Not decided: that the listing enumerates every file of the type (backend contract) and case/length handling of the prefix beyond the comparison shown.",
+		Assumptions: commonAssumptions,
+		Technique:   "static analysis: CFG edge cuts on the prefix test and the first-match test + path-sensitive error flow (go/ssa)",
+		Run:         func(c *eng.Ctx) { ruleUniquePrefixMatch(c) },
+		Controls: []Control{
+			{Name: "second-match-overwrites-first", File: "internal/restic/backend_find.go",
+				Old: "			if match.IsNull() {\n				match = id\n			} else {\n				return &MultipleIDMatchesError{prefix}\n			}", New: "			match = id", Rule: "unique-prefix-match"},
+			{Name: "no-match-returns-null-id", File: "internal/restic/backend_find.go",
+				Old: "	if !match.IsNull() {\n		return match, nil\n	}\n", New: "	if !match.IsNull() || prefix == \"\" {\n		return match, nil\n	}\n", Rule: "unique-prefix-match"},
+		},
+	})
+	register(&Property{
+		ID: "C54",
+		Explanation: "Decides the accounting structure of stats --mode restore-size, not the sums (the plan listed this property as not applicable; the 'hard links once per snapshot' clause turned out to be a test-and-set shape): (restore-size-accounting) in restore-size mode every visited node increments TotalFileCount on every path; TotalSize is increased only for a node with a single link, a directory, a node whose (inode, device) was not seen before in this snapshot, or a node without inode number; on the not-seen-before edge the pair is recorded in the hard link index before the size is added; Has and Add are keyed by the node's inode; and every snapshot is walked with a hard link index created for it. Not decided: that node sizes equal the bytes a restore writes, and the cross-snapshot totals.",
+		Assumptions: commonAssumptions,
+		Technique:   "static analysis: CFG edge cuts over the counting-mode branch + test-and-set shape of the hard link index (go/ssa)",
+		Run:         func(c *eng.Ctx) { ruleHardlinkOnce(c) },
+		Controls: []Control{
+			{Name: "hardlinks-counted-every-time", File: "cmd/restic/cmd_stats.go",
+				Old: "				if !hardLinkIndex.Has(node.Inode, node.DeviceID) || node.Inode == 0 {\n					hardLinkIndex.Add(node.Inode, node.DeviceID, struct{}{})\n					stats.TotalSize += node.Size\n				}", New: "				hardLinkIndex.Add(node.Inode, node.DeviceID, struct{}{})\n				stats.TotalSize += node.Size", Rule: "restore-size-accounting"},
+			{Name: "first-sight-not-recorded", File: "cmd/restic/cmd_stats.go",
+				Old: "					hardLinkIndex.Add(node.Inode, node.DeviceID, struct{}{})\n					stats.TotalSize += node.Size", New: "					stats.TotalSize += node.Size", Rule: "restore-size-accounting"},
+		},
+	})
+	register(&Property{
+		ID: "C52",
+		Explanation: "Decides the structural conditions under which the n/t buckets partition the packs, not the arithmetic itself (the plan listed this property as not applicable; what is claimed here is the form of the predicate and the accepted ranges): (bucket-selection) selectPacksByBucket selects a pack iff pack[0] % totalBuckets == bucket-1 — a function of the pack alone, so two different n never select the same pack and every pack's residue r is selected by n = r+1; checkFlags accepts n/t only with n != 0, t != 0, n <= t and t <= totalBucketsMax (specialised evaluation: with any of these violated no nil return is reachable after parsing), and totalBucketsMax is 256, the number of values of the single ID byte used; selectRandomPacksByPercentage raises the number of packs to read to 1 for a non-empty repository. Not decided: the modular arithmetic itself (every residue 0..t-1 is below t), uniformity, and the size-based subset's rounding.",
+		Assumptions: commonAssumptions,
+		Technique:   "static analysis: shape of the selection predicate (operators, operands, constants) + specialised path evaluation of the option validation (go/ssa, go/constant)",
+		Run:         func(c *eng.Ctx) { ruleBucketSelection(c) },
+		Controls: []Control{
+			{Name: "bucket-compared-without-offset", File: "cmd/restic/cmd_check.go",
+				Old: "		if (uint(pack[0]) % totalBuckets) == (bucket - 1) {", New: "		if (uint(pack[0]) % totalBuckets) == bucket {", Rule: "bucket-selection"},
+			{Name: "n-greater-than-t-accepted", File: "cmd/restic/cmd_check.go",
+				Old: "			if dataSubset[0] == 0 || dataSubset[1] == 0 || dataSubset[0] > dataSubset[1] {", New: "			if dataSubset[0] == 0 || dataSubset[1] == 0 {", Rule: "bucket-selection"},
+			{Name: "percentage-may-select-nothing", File: "cmd/restic/cmd_check.go",
+				Old: "	if packCount > 0 && packsToCheck < 1 {\n		packsToCheck = 1\n	}\n", New: "", Rule: "bucket-selection"},
+		},
+	})
+	register(&Property{
 		ID: "C24",
 		Explanation: "Decides coverage and gating in the selection code, not the selected sets: (filter-coverage) SnapshotFilter.matches applies HasHostname(f.Hosts), HasTagList(f.Tags) and HasPaths(f.Paths) to the snapshot and cannot yield true when any of them is false (specialised evaluation); every field of SnapshotFilter is one of these criteria or the time limit; findLatest records a snapshot as latest only behind matches==true, behind 'no limit or not after TimestampLimit', and behind 'no candidate yet or not before the current candidate'; FindAll's listing callback sees a snapshot only if it matches or failed to load; HasHostname and HasTagList return true for an empty list and HasHostname is otherwise membership of sn.Hostname, HasPaths tests the requested paths against the set of sn.Paths; (group-key) GroupSnapshots puts a snapshot's tags/hostname/paths into the key only on the corresponding groupBy edge (empty otherwise), sorts tags and paths before the key is encoded when grouping by them, and appends the snapshot to the group stored under its own key. Not decided: that the sets selected are exactly the satisfying snapshots (tag-list semantics, path normalisation), and tie-breaking of 'latest'.",
 		Assumptions: commonAssumptions,
